@@ -25,9 +25,18 @@ def corpus_cases(prop=None):
     return out
 
 
-def registered(gen, reg, per_type, cycles=False, modes=None):
+# registered types with positions of the interface type error: an error is written as the RPC error item
+# 'E', which the decoder turns into the decode's own error by design, so those types are outside the
+# round-trip domain of C01/C02 (the type list of C01 has interface{} only); the encoder's output for
+# them must still be well-formed (C03)
+ENCODE_ONLY = ("ErrF",)
+
+
+def registered(gen, reg, per_type, cycles=False, modes=None, roundtrip=True):
     cases = []
     for name in sorted(reg):
+        if roundtrip and name in ENCODE_ONLY:
+            continue
         for _ in range(per_type):
             td = Reg(name)
             c = {"t": td, "v": gen.value(td, 0, {"pool": {}, "cycles": cycles}),
